@@ -13,8 +13,8 @@ from concurrent.futures import ThreadPoolExecutor
 from . import build
 
 VERIF = build.VERIF
-EVID = os.path.join(VERIF, "evidence")
-REPLAYS = os.path.join(VERIF, "replays")
+EVID = os.environ.get("VERIF_EVIDENCE_DIR") or os.path.join(VERIF, "evidence")      # (overridden only by bin/seedtest)
+REPLAYS = os.environ.get("VERIF_REPLAY_DIR") or os.path.join(VERIF, "replays")
 KNOWN = os.path.join(VERIF, "known_findings.json")
 SCRATCH_ROOT = os.environ.get("VERIF_SCRATCH", "/var/tmp/verif-scratch")
 NCPU = int(os.environ.get("VERIF_JOBS", "16"))
